@@ -9,6 +9,7 @@
      G post <getter snapshot>
      END            (or  CRASH sig=<n> / TIMEOUT)
 */
+#define HC_KEEP 1
 #include "hcommon.h"
 #include <unistd.h>
 #include <signal.h>
@@ -434,7 +435,7 @@ static void one_run(const char *line)
     use_set_force = (int) getint(line, "setforce", 0);
     stopval_i = (int) getint(line, "forceval", 1);
     if ((v = getkey(line, "oc", b, sizeof b))) oc_n = parselist(v, &oc);
-    if (!oc || oc_n <= 0) { oc = (double *) calloc(1, sizeof(double)); oc_n = 1; }
+    if (!oc || oc_n <= 0) { oc = (double *) hc_keep(calloc(1, sizeof(double))); oc_n = 1; }
     if ((v = getkey(line, "inj", b, sizeof b))) ninj = parse_inj(v, inj_k, inj_v);
     if ((v = getkey(line, "injc", b, sizeof b))) ninjc = parse_inj(v, injc_k, injc_v);
 
@@ -474,7 +475,7 @@ static void one_run(const char *line)
         if ((v = getkey(line, "ub", b, sizeof b))) parselist(v, &ubv);
         if ((v = getkey(line, "x0", b, sizeof b))) parselist(v, &x0);
         if ((v = getkey(line, "xtol_abs", b, sizeof b))) parselist(v, &xa);
-        x = (double *) malloc(sizeof(double) * (n + 1));
+        x = (double *) hc_keep(malloc(sizeof(double) * (n + 1)));
         { unsigned i; for (i = 0; i < n; ++i) x[i] = x0 ? x0[i] : 0.0; x[n] = 777.0; }
         optf = -12345.678;
         ret = nlopt_minimize_econstrained((nlopt_algorithm) alg, (int) n, objective_old, &fdatas[0],
@@ -534,7 +535,7 @@ static void one_run(const char *line)
         }
     }
     if ((v = getkey(line, "x0", b, sizeof b))) parselist(v, &x0);
-    x = (double *) malloc(sizeof(double) * (n + 1));
+    x = (double *) hc_keep(malloc(sizeof(double) * (n + 1)));
     target = o;
     if (getint(line, "copy", 0)) { target = nlopt_copy(o); top = target; }
     if (cbad && !getint(line, "runanyway", 0)) { fprintf(out, "R constraint-rejected\nEND\n"); return; }
@@ -565,6 +566,10 @@ static void one_run(const char *line)
     fprintf(out, "END\n");
 }
 
+#if defined(__SANITIZE_ADDRESS__)
+#include <sanitizer/lsan_interface.h>
+#endif
+
 int main(int argc, char **argv)
 {
     char *line = NULL;
@@ -575,7 +580,13 @@ int main(int argc, char **argv)
     setvbuf(stdout, NULL, _IOFBF, 1 << 16);
     while (getline(&line, &cap, stdin) > 0) {
         if (line[0] == '\n' || line[0] == '#') continue;
-        if (nofork) { one_run(line); fflush(stdout); continue; }
+        if (nofork) {
+            one_run(line); fflush(stdout);
+#if defined(__SANITIZE_ADDRESS__)
+            if (__lsan_do_recoverable_leak_check()) return 25;
+#endif
+            continue;
+        }
         fflush(stdout);
         {
             pid_t pid = fork();
@@ -583,6 +594,9 @@ int main(int argc, char **argv)
                 alarm((unsigned) tmo);
                 one_run(line);
                 fflush(stdout);
+#if defined(__SANITIZE_ADDRESS__)
+                if (__lsan_do_recoverable_leak_check()) { fflush(stderr); _exit(25); }   /* leak report is on stderr */
+#endif
                 _exit(0);
             } else {
                 int st = 0;
@@ -595,5 +609,6 @@ int main(int argc, char **argv)
             }
         }
     }
+    free(line);
     return 0;
 }
